@@ -2015,6 +2015,37 @@ func c26EndToEnd(r *findings.Run) {
 		{"distinct", "SELECT DISTINCT u.o->x AS x FROM {T} WHERE u.id != 2.0"},
 		{"no-such-table", "SELECT * FROM {TX}"},
 	}
+	// conjunctions: the executor splits WHERE into conjuncts, sends the serialisable ones to the plugin and must keep
+	// every other one (and every one the plugin rejects) in a filter above it. Every predicate of the list is
+	// AND-combined, in both orders, with a pushable comparison and with a subquery predicate (never serialisable);
+	// thorough: every ordered pair of predicates.
+	{
+		var preds []string
+		for _, u := range uSQL {
+			if i := strings.Index(u.sql, " WHERE "); i >= 0 && strings.HasPrefix(u.feature, "where:") && strings.HasPrefix(u.sql, "SELECT u.id FROM {T} WHERE ") &&
+				u.feature != "where:runtime-error" && u.feature != "where:unknown-function" {
+				preds = append(preds, u.sql[i+len(" WHERE "):])
+			}
+		}
+		partners := []string{"u.id > 1.0", "u.id IN (SELECT v.id FROM {T2} WHERE v.id > 2.0)", "u.id != (SELECT min(v.id) FROM {T2})"}
+		if r.Thorough() {
+			partners = preds
+		}
+		seen := map[string]bool{}
+		for _, p := range preds {
+			for _, q := range partners {
+				if p == q {
+					continue
+				}
+				for _, c := range []string{"(" + p + ") AND (" + q + ")", "(" + q + ") AND (" + p + ")"} {
+					if !seen[c] {
+						seen[c] = true
+						uSQL = append(uSQL, struct{ feature, sql string }{"where:conjunction", "SELECT u.id FROM {T} WHERE " + c})
+					}
+				}
+			}
+		}
+	}
 	upath := filepath.Join(setup.dataDir, "u.json")
 	for _, u := range uSQL {
 		rp := strings.NewReplacer("{TX}", "mydb.nosuch x", "{T2}", "mydb.u v", "{T}", "mydb.u u")
